@@ -242,7 +242,7 @@ C06f(line, pre) ==
 EqualSizes(W, g) == \A a, b \in Listed(W, g) : V(W, g)[a].cpu = V(W, g)[b].cpu /\ V(W, g)[a].mem = V(W, g)[b].mem
 C05Applies(line, pre, g) ==
   /\ C06Applies(line, pre, g) /\ Bands(pre, g) = {"up"} /\ EqualSizes(pre, g) /\ ~pre.groups[g].cfg.fleet
-  /\ ~Starved(line, pre, g) /\ ~Aged(line, pre, g)
+  \* (the scale_on_starve / max_node_age triggers only raise the amount to at least one: above the threshold they change nothing)
 C05v(line, pre) ==
   UNION {IF ~C05Applies(line, pre, g) THEN {} ELSE
          LET gs == pre.groups[g]
@@ -278,7 +278,8 @@ C05z(line, pre) ==
          IN (IF brought < need /\ ~clamped THEN {<<"C05", "from-zero-insufficient-for-last-observed-size", g, "">>} ELSE {})
             \cup (IF brought > need + 1 \/ ((gs.seenCpu = 0 \/ gs.seenMem = 0) /\ brought > 1) THEN {<<"C05", "from-zero-too-many-for-last-observed-size", g, "">>} ELSE {})
         : g \in Groups(pre)}
-C05f(line, pre) == UNION {(IF C05Applies(line, pre, g) THEN {"C05:scale-up"} ELSE {}) \cup (IF C05ZeroApplies(line, pre, g) THEN {"C05:ctl-from-zero"} ELSE {}) : g \in Groups(pre)}
+C05f(line, pre) == UNION {(IF C05Applies(line, pre, g) THEN {"C05:scale-up"} ELSE {})
+                                \cup (IF C05Applies(line, pre, g) /\ (Aged(line, pre, g) \/ Starved(line, pre, g)) THEN {"C05:scale-up-with-trigger"} ELSE {}) \cup (IF C05ZeroApplies(line, pre, g) THEN {"C05:ctl-from-zero"} ELSE {}) : g \in Groups(pre)}
 
 -----------------------------------------------------------------------------
 \* C07 — tainted nodes are reused (newest first) before capacity is bought
@@ -500,6 +501,10 @@ C19v(line, pre, exp) ==
      \cup UNION {{<<"C19", "terminated-non-candidate-instance", g, n>> : n \in {m \in TermAttempt(line, g) : m \notin Listed(pre, g)}} : g \in Groups(pre)}
      \cup (IF exp.ret = "notingroup" /\ exp.valid /\ line.ret # "notingroup" /\ ~line.panic /\ ~line.hang
              THEN {<<"C19", "continued-after-not-in-group", "", "">>} ELSE {})
+     \* "terminates exactly the instances backing the given nodes": when every given node is a member (the specification, which knows the
+     \* cloud's instance list, does not stop), stopping with not-in-group instead of terminating them is not that
+     \cup (IF line.ret = "notingroup" /\ exp.valid /\ exp.ret # "notingroup" /\ ~line.crash /\ ~line.panic /\ ~line.hang
+             THEN {<<"C19", "not-in-group-although-every-given-node-is-a-member", "", "">>} ELSE {})
      \* a removal request that would take the group below the ASG minimum is refused as a whole: for every run of consecutive
      \* terminate calls of a group (= one request, cut short at its first failure), the desired capacity the cloud had when the
      \* request started, minus the size of the run, stays at or above the minimum
